@@ -14,6 +14,9 @@ CLAIMED = {
  "C04": dict(level="proof", tech="loop-free full-domain CBMC harnesses + DFCC loop contract (cost fold) on extracted bodies; bounded CBMC for the solution set",
    text="Reduced scope: the ranking and cost-algebra layer every planner funnels through. Proved for all non-NaN inputs: PlannerSolution::operator< is a strict weak order and realises the ranking of the property text (exact before approximate, smaller difference, objective-satisfying first, better cost); OptimizationObjective::isCostBetterThan/isCostEquivalentTo/betterCost/isSatisfied/isFinite/combineCosts (+ MaximizeMinClearance and Minimax overrides) including 'meets the objective exactly when better than the threshold'; PathGeometric::cost is the left fold initial/motion/terminal (unbounded, loop contract, ghost index). Bounded (<= 4/6 solutions): PlannerSolutionSet::add/getTopSolution/isApproximate/isOptimized/getDifference hand out the best-ranked solution first.",
    note=TRUST + "NOT covered: that each optimizing planner's stored cost is >= the true path cost and >= the admissible bound, and monotonicity across solve() calls (planner solve() bodies are not under contract). std::sort modelled by insertion sort over the extracted comparator."),
+ "C13": dict(level="model_checking", tech="bounded CBMC (SAT) on extracted bodies over every grid state of a small window; abstract heaps from the C11 contract",
+   text="Grid::neighbors/add/remove, GridN::createCell/remove/numberOfBoundaryDimensions, GridB::createCell/add/remove/update/updateAll/topInternal/topExternal/count* and Grid::components (all extracted on every run) are checked over EVERY grid state inside a 3x3 window (thorough: also 1-D and 3-D windows): every subset of cells present, every neighbour limit and bounds configuration, every argument. Whole-view postconditions: lookups find exactly the present cells, neighbour lists are exactly the present +-1 cells, counts and border flags match the actual neighbours and bounds (also after create-then-abandon), every cell sits in exactly one queue with a valid handle and no stale priority, tops are the best cell of their class with the documented fallback, components partition the cells according to the neighbour relation (all occupancy patterns enumerated). Bounded stand-in, not proof.",
+   note=TRUST + "unordered_map behind an assumed finite-map contract (direct table), Eigen vectors as int arrays, the two BinaryHeaps behind the abstract view proved in C11 (handle validity asserted as precondition at every use)."),
  "C11": dict(level="proof", tech="CBMC code contracts (DFCC + cvc5) for the sift loops, bounded CBMC (SAT) for whole-structure operations",
    text="Unbounded (loop-contract) proofs of BinaryHeap::percolateUp and percolateDown for every heap of up to 65535/32767 elements: heap order at an arbitrary ghost slot and handle integrity for an arbitrary ghost element, discharged one obligation per cvc5 process. Every public operation (insert, bulk insert, remove, pop, update, rebuild, buildFrom, sort, clear, top, getContent) is additionally verified, with callees inlined, for ALL heaps of up to N elements (N=15; build/sort N=6-7; thorough 31/15) with fully symbolic contents against whole-view postconditions (order, handles, size = live elements, multiset change, events). The bounded units are labelled bounded in the evidence and are not counted as proof; the level 'proof' refers to the two sift units.",
    note=TRUST + "Strict-weak-order comparator (8-bit rank keys are then WLOG); 16-bit element references in the unbounded units; callers are not yet verified against the sift contracts (bounded only); narrowing conversions treated as two's complement."),
